@@ -415,15 +415,18 @@ class Dataset:
         :return: the unified rankings of the Dataset within a new Ranking List
 
         """
-        copy_rankings: List[Ranking] = copy.deepcopy(self.rankings)
+        unified_rankings: List[Ranking] = []
         all_elements: Set[Element] = set(self._mapping_element_id.keys())
 
-        for ranking in copy_rankings:
+        for ranking in self.rankings:
+            buckets: List[Set[Element]] = copy.deepcopy(ranking.buckets)
             missing_elements: Set[Element] = all_elements - ranking.domain
             if missing_elements:
-                ranking.buckets.append(missing_elements)
+                buckets.append(missing_elements)
+            # a new Ranking is built, so that its positions and its domain take the unifying bucket into account
+            unified_rankings.append(Ranking(buckets))
 
-        return copy_rankings
+        return unified_rankings
 
     def unified_dataset(self):
         """
